@@ -107,6 +107,7 @@ type State struct {
 	Nondets []NondetRec
 	Occ     map[string]int
 	Obs     []Observation
+	Failed  []string // tags of assertions that fail for every input on this path
 	Aux     map[auxKey]int
 	Globals map[*ssa.Global]int
 	Panic   *PanicInfo
@@ -153,6 +154,7 @@ func (st *State) clone() *State {
 	n.Implied = append([]*smt.Term(nil), st.Implied...)
 	n.Nondets = append([]NondetRec(nil), st.Nondets...)
 	n.Obs = append([]Observation(nil), st.Obs...)
+	n.Failed = append([]string(nil), st.Failed...)
 	n.Occ = make(map[string]int, len(st.Occ))
 	for k, v := range st.Occ {
 		n.Occ[k] = v
